@@ -254,8 +254,54 @@ def run(ctx):
         ctx.require(not w, "P5", "envwrite|" + b.short, "parallel closure writes nothing through its environment", "parallel closure writes through its environment: %s" % sorted(w, key=str)[:3], loc_str(t.span))
     ctx.floor("P5", "parallel_regions", len(regions), 2)
 
-    # thread count flows only into branch conditions
+    thread_count_arms(ctx, prog, flows, "P5", "P6")
+
+    # ------------------------------------------------------------------ P7 hash order
+    ctx.rule("P7", "no hash-order-sensitive sink over a RandomState container inside a parallel region; after the join only collect-into-map (and the documented set-like Vec of get_all_shortest_paths_involving)")
+    sites = hashord.find_sites(prog, flows, effects, bodies=region_bodies)
+    n_in = 0
+    for s in sites:
+        n_in += 1
+        w = s.worst()
+        key = "region|" + s.key()
+        if s.random and w != "SAFE":
+            ctx.violation("P7", key, "hash-order-sensitive (%s) consumer of a RandomState container inside a parallel region: %s" % (w, [x[2] for x in s.consumers][:2]), loc_str(s.create.span))
+        else:
+            ctx.ok("P7", key, "%s iteration in parallel region is %s (%s)" % ("RandomState" if s.random else "nohash (deterministic)", w, s.body.short), loc_str(s.create.span))
+    roots = []
+    for suffix in PUBLIC5:
+        roots.append(prog.one(suffix))
+    post_bodies = set()
+    for r in roots:
+        post_bodies.add(r.path)
+        for c in prog.closures_of(r.path):
+            if c.path not in region_bodies:
+                post_bodies.add(c.path)
+    # helper bodies that run after the join on the caller's thread
+    for sfx in ("dijkstra::convert_shortest_path_info_vec_to_t_map", "dijkstra::convert_shortest_path_info_index_to_t", "betweenness::rescale", "betweenness::accumulate_betweenness", "betweenness::get_scale"):
+        for x in prog.find(sfx):
+            post_bodies.add(x.path)
+            for c in prog.closures_of(x.path):
+                post_bodies.add(c.path)
+    for s in hashord.find_sites(prog, flows, effects, bodies=post_bodies):
+        w = s.worst()
+        key = "post|" + s.key()
+        if not s.random or w == "SAFE":
+            ctx.ok("P7", key, "post-join hash iteration in %s is %s" % (s.body.short, w), loc_str(s.create.span))
+        elif "get_all_shortest_paths_involving" in s.body.short and w == "ORDER":
+            ctx.ok("P7", key, "get_all_shortest_paths_involving returns a Vec in map order: the statement compares entries as a set", loc_str(s.create.span))
+        else:
+            ctx.violation("P7", key, "post-join %s sink over RandomState container in %s: %s" % (w, s.body.short, [x[2] for x in s.consumers][:2]), loc_str(s.create.span))
+    ctx.counters["bodies_in_parallel_regions"] = len(region_bodies)
+    ctx.counters["hash_sites_in_regions"] = n_in
+    ctx.floor("P7", "bodies_in_parallel_regions", len(region_bodies), 8)
+
+
+def thread_count_arms(ctx, prog, flows, rid5, rid6):
+    """the branches that depend on rayon::current_num_threads(): the count flows only into conditions (rid5) and both
+    arms of every such branch are siblings (rid6).  Shared with C17 (same answer under every thread count)."""
     tc_switches = []
+    # thread count flows only into branch conditions
     for b, t in all_calls(prog):
         if t.callee.short != "rayon::current_num_threads":
             continue
@@ -301,11 +347,11 @@ def run(ctx):
                 sw = sw2
                 extra = True
         key = "threadcount|" + b.short
-        ctx.require(not bad_use, "P5", key, "current_num_threads() in %s flows only into branch conditions (%d switches)" % (b.short, len(sw)), "current_num_threads() in %s flows into a value: %s" % (b.short, [repr(x)[:80] for x in bad_use[:3]]), loc_str(t.span))
+        ctx.require(not bad_use, rid5, key, "current_num_threads() in %s flows only into branch conditions (%d switches)" % (b.short, len(sw)), "current_num_threads() in %s flows into a value: %s" % (b.short, [repr(x)[:80] for x in bad_use[:3]]), loc_str(t.span))
         tc_switches.append((b, sw))
 
     # ------------------------------------------------------------------ P6 serial and parallel arms are siblings
-    ctx.rule("P6", "both arms of every thread-count-dependent branch call the same crate functions with same-provenance arguments under the same option tests")
+    ctx.rule(rid6, "both arms of every thread-count-dependent branch call the same crate functions with same-provenance arguments under the same option tests")
     n_pairs = 0
     for b, sws in tc_switches:
         for sw in sws:
@@ -322,50 +368,11 @@ def run(ctx):
             ok, why = compare_features(flows, feats[0], feats[1])
             site = loc_str(blk.term.span)
             if ok:
-                ctx.ok("P6", key, "serial/parallel arms of %s agree: %s" % (b.short, "; ".join(sorted(fmt_feature(f) for f in feats[0]))[:300]), site)
+                ctx.ok(rid6, key, "serial/parallel arms of %s agree: %s" % (b.short, "; ".join(sorted(fmt_feature(f) for f in feats[0]))[:300]), site)
             else:
-                ctx.violation("P6", key, "serial and parallel arms of %s differ: %s" % (b.short, why), site)
-    ctx.floor("P6", "thread_count_branches", n_pairs, 2)
+                ctx.violation(rid6, key, "serial and parallel arms of %s differ: %s" % (b.short, why), site)
+    ctx.floor(rid6, "thread_count_branches", n_pairs, 2)
 
-    # ------------------------------------------------------------------ P7 hash order
-    ctx.rule("P7", "no hash-order-sensitive sink over a RandomState container inside a parallel region; after the join only collect-into-map (and the documented set-like Vec of get_all_shortest_paths_involving)")
-    sites = hashord.find_sites(prog, flows, effects, bodies=region_bodies)
-    n_in = 0
-    for s in sites:
-        n_in += 1
-        w = s.worst()
-        key = "region|" + s.key()
-        if s.random and w != "SAFE":
-            ctx.violation("P7", key, "hash-order-sensitive (%s) consumer of a RandomState container inside a parallel region: %s" % (w, [x[2] for x in s.consumers][:2]), loc_str(s.create.span))
-        else:
-            ctx.ok("P7", key, "%s iteration in parallel region is %s (%s)" % ("RandomState" if s.random else "nohash (deterministic)", w, s.body.short), loc_str(s.create.span))
-    roots = []
-    for suffix in PUBLIC5:
-        roots.append(prog.one(suffix))
-    post_bodies = set()
-    for r in roots:
-        post_bodies.add(r.path)
-        for c in prog.closures_of(r.path):
-            if c.path not in region_bodies:
-                post_bodies.add(c.path)
-    # helper bodies that run after the join on the caller's thread
-    for sfx in ("dijkstra::convert_shortest_path_info_vec_to_t_map", "dijkstra::convert_shortest_path_info_index_to_t", "betweenness::rescale", "betweenness::accumulate_betweenness", "betweenness::get_scale"):
-        for x in prog.find(sfx):
-            post_bodies.add(x.path)
-            for c in prog.closures_of(x.path):
-                post_bodies.add(c.path)
-    for s in hashord.find_sites(prog, flows, effects, bodies=post_bodies):
-        w = s.worst()
-        key = "post|" + s.key()
-        if not s.random or w == "SAFE":
-            ctx.ok("P7", key, "post-join hash iteration in %s is %s" % (s.body.short, w), loc_str(s.create.span))
-        elif "get_all_shortest_paths_involving" in s.body.short and w == "ORDER":
-            ctx.ok("P7", key, "get_all_shortest_paths_involving returns a Vec in map order: the statement compares entries as a set", loc_str(s.create.span))
-        else:
-            ctx.violation("P7", key, "post-join %s sink over RandomState container in %s: %s" % (w, s.body.short, [x[2] for x in s.consumers][:2]), loc_str(s.create.span))
-    ctx.counters["bodies_in_parallel_regions"] = len(region_bodies)
-    ctx.counters["hash_sites_in_regions"] = n_in
-    ctx.floor("P7", "bodies_in_parallel_regions", len(region_bodies), 8)
 
 
 def compare_features(flows, A, B, depth=0):
